@@ -869,18 +869,17 @@ impl PatternFusion for MatMulAddFusion {
         // The fused operator requires the bias length to match the number of
         // columns in the output, whereas `Add` would broadcast the operands.
         let rhs_input = matmul_add_match.node_id("b").unwrap();
-        let rhs_shape = graph
-            .get_node(rhs_input)
-            .and_then(|n| n.shape())
-            .ok_or(FusionError::CheckFailed("unknown RHS shape"))?;
-        let bias_matches_columns = match &rhs_shape[..] {
-            [.., _, Dimension::Fixed(cols)] => *cols == bias_len,
-            _ => false,
-        };
-        if !bias_matches_columns {
-            return Err(FusionError::CheckFailed(
-                "bias length does not match RHS columns",
-            ));
+        if let Some(rhs_shape) = graph.get_node(rhs_input).and_then(|n| n.shape()) {
+            let bias_matches_columns = match &rhs_shape[..] {
+                [.., _, Dimension::Fixed(cols)] => *cols == bias_len,
+                [.., _, Dimension::Symbolic(_)] => true,
+                _ => false,
+            };
+            if !bias_matches_columns {
+                return Err(FusionError::CheckFailed(
+                    "bias length does not match RHS columns",
+                ));
+            }
         }
 
         Ok(FusedMatMul { alpha: None })
